@@ -137,9 +137,18 @@ func readRecordHeaderV4(reader *checksumByteReader) (payloadSizeUncompressed uin
 		return 0, 0, false, err
 	}
 
+	checksumStart := reader.Count()
 	expectedChecksum, err := binary.ReadUvarint(reader)
 	if err != nil {
 		return 0, 0, false, err
+	}
+
+	// the checksum does not protect its own encoding: a padded (non-minimal) varint decodes to the same value,
+	// but swallows bytes of the payload that follows - so only the encoding the writer produces is accepted
+	var minimalEncoding [binary.MaxVarintLen64]byte
+	if reader.Count()-checksumStart != binary.PutUvarint(minimalEncoding[:], expectedChecksum) {
+		return 0, 0, false,
+			fmt.Errorf("%w: checksum [%x] is not minimally encoded", HeaderChecksumMismatchErr, expectedChecksum)
 	}
 
 	if actualChecksum != expectedChecksum {
